@@ -67,6 +67,9 @@ pub enum Script {
     SendToThread,
     SharedThreads,
     DropElsewhere,
+    /// after loading, every byte of the file is overwritten in place (the file is made writable first); the
+    /// structure is read afterwards: a loader that copies must have kept a private copy
+    OverwriteAfterLoad,
 }
 
 pub struct LoadOut {
@@ -78,6 +81,8 @@ pub struct LoadOut {
     pub tail_zero: Option<bool>,
     /// the first `file_len` bytes of the region equal the file
     pub prefix_is_file: Option<bool>,
+    /// heap allocations made by the library's loader call itself (not by the harness)
+    pub lib_allocs: alloc::AllocStats,
 }
 
 /// Object-safe view of a subject.
@@ -125,12 +130,12 @@ fn memcase_out<S: Subject>(case: &epserde::deser::MemCase<<S::T as DeserializeIn
         let region = bytes.map(|r| (r.as_ptr() as usize, r.len()));
         let tail_zero = bytes.map(|r| r.len() >= file.len() && r[file.len()..].iter().all(|x| *x == 0));
         let prefix_is_file = bytes.map(|r| r.len() >= file.len() && &r[..file.len()] == file);
-        LoadOut { val, borrows: b.0, region, tail_zero, prefix_is_file }
+        LoadOut { val, borrows: b.0, region, tail_zero, prefix_is_file, lib_allocs: Default::default() }
     }
     #[cfg(not(epserde_verif))]
     {
         let _ = file;
-        LoadOut { val, borrows: b.0, region: None, tail_zero: None, prefix_is_file: None }
+        LoadOut { val, borrows: b.0, region: None, tail_zero: None, prefix_is_file: None, lib_allocs: Default::default() }
     }
 }
 
@@ -230,25 +235,43 @@ where
                     Script::Boxed => *Box::new(t),
                     _ => t,
                 };
-                Ok(LoadOut { val: S::full_to_val(&t), borrows: vec![], region: None, tail_zero: None, prefix_is_file: None })
+                Ok(LoadOut { val: S::full_to_val(&t), borrows: vec![], region: None, tail_zero: None, prefix_is_file: None, lib_allocs: Default::default() })
             }
             _ => {
                 // contents for the region checks; a path that cannot be read (missing, a directory) must still
                 // reach the loader under test
                 let file = std::fs::read(path).unwrap_or_default();
                 let file = &file[..];
-                let case: epserde::deser::MemCase<<S::T as DeserializeInner>::DeserType<'static>> = match loader {
-                    Loader::LoadMem => <S::T as Deserialize>::load_mem(path)?,
-                    #[cfg(feature = "mmap")]
-                    Loader::LoadMmap => <S::T as Deserialize>::load_mmap(path, epserde::deser::Flags::from_bits_truncate(flags))?,
-                    #[cfg(feature = "mmap")]
-                    Loader::Mmap => <S::T as Deserialize>::mmap(path, epserde::deser::Flags::from_bits_truncate(flags))?,
-                    #[cfg(not(feature = "mmap"))]
-                    _ => anyhow::bail!("loader not available without the mmap feature"),
-                    #[cfg(feature = "mmap")]
-                    Loader::LoadFull => unreachable!(),
+                let (case, lib_allocs) = alloc::count(|| -> anyhow::Result<epserde::deser::MemCase<<S::T as DeserializeInner>::DeserType<'static>>> {
+                    Ok(match loader {
+                        Loader::LoadMem => <S::T as Deserialize>::load_mem(path)?,
+                        #[cfg(feature = "mmap")]
+                        Loader::LoadMmap => <S::T as Deserialize>::load_mmap(path, epserde::deser::Flags::from_bits_truncate(flags))?,
+                        #[cfg(feature = "mmap")]
+                        Loader::Mmap => <S::T as Deserialize>::mmap(path, epserde::deser::Flags::from_bits_truncate(flags))?,
+                        #[cfg(not(feature = "mmap"))]
+                        _ => anyhow::bail!("loader not available without the mmap feature"),
+                        #[cfg(feature = "mmap")]
+                        Loader::LoadFull => unreachable!(),
+                    })
+                });
+                let case = case?;
+                let with_allocs = |mut o: LoadOut| {
+                    o.lib_allocs = lib_allocs;
+                    o
                 };
-                match script {
+                let out: anyhow::Result<LoadOut> = match script {
+                    Script::OverwriteAfterLoad => {
+                        use std::io::{Seek, Write};
+                        use std::os::unix::fs::PermissionsExt;
+                        let _ = std::fs::set_permissions(path, std::fs::Permissions::from_mode(0o644));
+                        let mut f = std::fs::OpenOptions::new().write(true).open(path)?;
+                        f.seek(std::io::SeekFrom::Start(0))?;
+                        f.write_all(&vec![0xFFu8; file.len()])?;
+                        f.sync_all()?;
+                        drop(f);
+                        Ok(memcase_out::<S>(&case, file))
+                    }
                     Script::Direct => Ok(memcase_out::<S>(&case, file)),
                     Script::Boxed => {
                         let b = Box::new(case);
@@ -293,7 +316,8 @@ where
                         std::thread::spawn(move || drop(case)).join().map_err(|_| anyhow::anyhow!("dropping thread panicked"))?;
                         Ok(out)
                     }
-                }
+                };
+                out.map(with_allocs)
             }
         }
     }
